@@ -25,9 +25,11 @@ for d in $(git diff --name-only -- . ':(exclude)_seed' | xargs -n1 dirname | sor
   echo "   existing tests $d: $r"
 done
 cd /verif
+mv $wt/$pkg/zzseed_demo_test.go /tmp/zzseed_demo_$id.go 2>/dev/null  # the demonstration is not part of the change under test
 out=/tmp/seedout/$id; mkdir -p $out
 for c in "$@"; do
   o=$(VERIF_REPO=$wt VERIF_OUT=$out timeout 3000 ./check $c $tier 2>&1); rc=$?
   echo "   check $c $tier rc=$rc :: $(echo "$o" | grep -E '^(VIOLATION|INCONCLUSIVE)' | head -4 | cut -c1-200 | tr '\n' '|')"
 done
+mv /tmp/zzseed_demo_$id.go $wt/$pkg/zzseed_demo_test.go 2>/dev/null
 mkdir -p /verif/seeded/$id && cp $wt/_seed/patch.diff $wt/_seed/meta.json $wt/_seed/zzseed_demo_test.go /verif/seeded/$id/
